@@ -398,7 +398,6 @@ func suiteC19(s *Suite, rng *Rng, tier string) {
 		"FastMod: all moduli 2^b-c, b<=12, negative/huge/aliased operands + large moduli; RandomPrimeInRange candidates and sieve; prepareBytes; safe prime generation at 16..64 bits", pmax, stride, nmax)
 }
 
-
 func catchPanic(f func()) (msg string) {
 	defer func() {
 		if r := recover(); r != nil {
